@@ -69,3 +69,80 @@ theorem nextNames_spec (ex : Name → Bool) (fuel : Nat) :
           exact this (by rw [← heq]; exact List.mem_cons_self)
 
 end Scrut.Namer
+
+namespace Scrut.Namer
+
+/-! ### the counter loop terminates: fuel `|names| + |existing| + 1` always suffices -/
+
+theorem withCounter_inj {name : Name} {a b : Nat} (h : withCounter name a = withCounter name b) : a = b := by
+  unfold withCounter at h
+  have h1 : (toString a).toList = (toString b).toList := by
+    have := List.append_cancel_left h
+    exact this
+  rw [Nat.toString_eq_ofList_toDigits, Nat.toString_eq_ofList_toDigits] at h1
+  have h2 : Nat.toDigits 10 a = Nat.toDigits 10 b := by simpa using h1
+  have := congrArg (fun l => Nat.ofDigitChars 10 l 0) h2
+  simpa [Nat.ofDigitChars_ten_toDigits] using this
+
+/-- `search` only looks at candidates `withCounter name k` with `k ≥ c`; two states that agree on
+them give the same result -/
+theorem search_congr {name : Name} (n1 n2 : List Name) (e1 e2 : Name → Bool) :
+    ∀ fuel c, (∀ k, c ≤ k → taken n1 e1 (withCounter name k) = taken n2 e2 (withCounter name k)) →
+      search n1 e1 name fuel c = search n2 e2 name fuel c := by
+  intro fuel
+  induction fuel with
+  | zero => intro c _; rfl
+  | succ f ih =>
+    intro c h
+    simp only [search]
+    rw [h c (Nat.le_refl _)]
+    split
+    · exact ih (c + 1) (fun k hk => h k (by omega))
+    · rfl
+
+/-- with the taken names given as one finite list `T`, fuel `|T| + 1` suffices -/
+theorem search_terminates {name : Name} :
+    ∀ (fuel : Nat) (T : List Name) (c : Nat), T.length < fuel →
+      ∃ n, search [] (fun x => T.contains x) name fuel c = some n := by
+  intro fuel
+  induction fuel with
+  | zero => intro T c h; omega
+  | succ f ih =>
+    intro T c h
+    simp only [search]
+    by_cases ht : taken [] (fun x => T.contains x) (withCounter name c) = true
+    · simp only [ht, if_true]
+      have hmem : withCounter name c ∈ T := by simpa [taken] using ht
+      -- remove the taken candidate: later candidates are different strings
+      have hpos : 0 < T.length := List.length_pos_of_mem hmem
+      have hlen : (T.erase (withCounter name c)).length < f := by
+        rw [List.length_erase_of_mem hmem]; omega
+      obtain ⟨n, hn⟩ := ih (T.erase (withCounter name c)) (c + 1) hlen
+      refine ⟨n, ?_⟩
+      rw [← hn]
+      apply search_congr
+      intro k hk
+      have hne : withCounter name k ≠ withCounter name c := by
+        intro heq; have := withCounter_inj heq; omega
+      simp [taken, List.mem_erase_of_ne hne]
+    · have hf : taken [] (fun x => T.contains x) (withCounter name c) = false := by
+        cases h' : taken [] (fun x => T.contains x) (withCounter name c) <;> simp_all
+      exact ⟨withCounter name c, by rw [hf]; rfl⟩
+
+/-- **termination of `next_name`**: if the names that exist on disk are the finite list `ex`, the
+counter loop finds a free name within `|names| + |ex| + 1` steps -/
+theorem nextName_terminates (names ex : List Name) (name : Name) :
+    ∃ r, nextName names (fun x => ex.contains x) (names.length + ex.length + 1) name = some r := by
+  unfold nextName
+  split
+  · exact ⟨_, rfl⟩
+  · obtain ⟨n, hn⟩ := search_terminates (name := name) (names.length + ex.length + 1) (names ++ ex) 1 (by simp)
+    have : search names (fun x => ex.contains x) name (names.length + ex.length + 1) 1 = some n := by
+      rw [← hn]
+      apply search_congr
+      intro k _
+      simp [taken, List.contains_eq_mem, List.mem_append]
+    rw [this]
+    exact ⟨_, rfl⟩
+
+end Scrut.Namer
